@@ -6,7 +6,7 @@ use crate::engine::*;
 use crate::props::c08::{parse_quiet, silence_stderr_once};
 use crate::refeval::{self, deep_type_check};
 use crate::tape::{Tape, hash_bytes};
-use patronus::expr::{Context, ExprRef, TypeCheck};
+use patronus::expr::{Context, ExprRef, Type, TypeCheck};
 use patronus::system::TransitionSystem;
 use std::sync::OnceLock;
 
@@ -65,16 +65,15 @@ pub fn deep_check(ctx: &Context, sys: &TransitionSystem) -> Result<(), (String, 
             ));
         }
     }
+    // bad states and constraints are properties: boolean (the btor2 lines carry no sort of their own)
     for (what, list) in [("bad", &sys.bad_states), ("constraint", &sys.constraints)] {
         for e in list.iter() {
             if !e.get_type(ctx).is_bit_vector() {
                 return Err((format!("{}-not-a-bit-vector", what), refeval::show(ctx, *e)));
             }
-        }
-    }
-    for o in sys.outputs.iter() {
-        if !o.expr.get_type(ctx).is_bit_vector() {
-            return Err(("output-not-a-bit-vector".into(), refeval::show(ctx, o.expr)));
+            if e.get_type(ctx) != Type::BV(1) {
+                return Err((format!("{}-not-boolean", what), refeval::show(ctx, *e)));
+            }
         }
     }
     Ok(())
